@@ -10,11 +10,15 @@ pub struct InternedString(Spur);
 
 impl InternedString {
     pub fn get_or_intern<T: AsRef<str>>(s: T) -> Self {
+        #[cfg(grass_verif)]
+        crate::verif::point("interner");
         Self(STRINGS.with(|interner| interner.borrow_mut().get_or_intern(s)))
     }
 
     #[allow(dead_code)]
     pub fn resolve(self) -> String {
+        #[cfg(grass_verif)]
+        crate::verif::point("interner");
         STRINGS.with(|interner| interner.borrow().resolve(&self.0).to_owned())
     }
 
@@ -25,12 +29,16 @@ impl InternedString {
 
     // todo: no need for unsafe here
     pub fn resolve_ref<'a>(self) -> &'a str {
+        #[cfg(grass_verif)]
+        crate::verif::point("interner");
         unsafe { STRINGS.with(|interner| interner.as_ptr().as_ref().unwrap().resolve(&self.0)) }
     }
 }
 
 impl Display for InternedString {
     fn fmt(&self, f: &mut fmt::Formatter<'_>) -> fmt::Result {
+        #[cfg(grass_verif)]
+        crate::verif::point("interner");
         STRINGS.with(|interner| write!(f, "{}", interner.borrow().resolve(&self.0)))
     }
 }
